@@ -119,6 +119,11 @@ def canonical_when(F, text):
         text = re.sub(r'\.' + re.escape(nm) + r'(?=[.)\s]|$)', '.<member>', text)
     for q, w in _ROWS['linkwords'].items():
         text = re.sub(re.escape(q) + r'\.(?:[A-Za-z_]+|<member>)\.Basic_unary<const String &>operand\(\)', f'ipr::impl::(anon)internal_string("{w}")', text)
+    # Lemma (C04.reserved-spellings-interned / C13.reserved-spellings): the characters of the reserved word W are the spelling "W";
+    # equality of views is symmetric.  `internal_string("W").characters() == x` and `x == "W"` are the same atom (second form kept)
+    view = 'basic_string_view<char8_t, char_traits<char8_t>>'
+    text = re.sub(r'operator==<char8_t, char_traits<char8_t>>\(ipr::impl::\(anon\)internal_string\("([^"]*)"\)\.characters\(\), ([^(),]+)\)',
+                  lambda m: f'operator==<char8_t, char_traits<char8_t>>({m.group(2)}, {view}basic_string_view("{m.group(1)}"))', text)
     return text
 
 
